@@ -29,7 +29,7 @@ ASSUMPTIONS = [
 WATCHDOG_S = {"quick": 900, "thorough": 7200}
 
 HDLC_PATTERNS = ("all_flags", "flag_short_junk", "flag_lone_escape", "valid_frames", "never_ending_frame", "random_bytes", "overlong_frame_then_flags",
-                 "single_flag_between_frames", "escaped_pairs_forever", "escape_fill_forever")
+                 "single_flag_between_frames", "escaped_pairs_forever", "escape_fill_forever", "valid_frames_with_segmentation_bit")
 P1_PATTERNS = ("ident_lines_without_end", "slash_without_lf", "ident_then_endless_data", "valid_readouts", "random_ascii", "random_bytes", "text_without_slash_and_lf",
                "slashes_without_lf", "slash_words_without_lf", "ident_then_no_lf", "varying_slash_lines")
 CHUNKS = (1, 64, 4096, 65536, "delim1", "delim7")  # delimN: a call ends right after every N-th LF (P1) / flag (HDLC)
@@ -69,6 +69,13 @@ def make_stream(rng, reader: str, cfg, pattern: str, total: int) -> bytes:
         if pattern == "overlong_frame_then_flags":
             # a frame that is already longer than its length field says, followed by endless flag fill
             return (b"\x7e\xa0\x08\x01\x02\x01\x10" + bytes(rng.randrange(0x80) for _ in range(39)) + b"\x7e" * total)[:total]
+        if pattern == "valid_frames_with_segmentation_bit":
+            from vf.ref import hdlc_ref as _h
+
+            ids = hdlc_gen.IdSource(rng)
+            frames = [_h.build(0xA, True, _h.address(rng, 1), _h.address(rng, 1), rng.randrange(256), ids.next() + rng.randbytes(rng.randint(1, 60))) for _ in range(300)]
+            unit = b"\x7e" + b"\x7e".join(hdlc_gen.on_wire(f, cfg[0]) for f in frames) + b"\x7e"
+            return (unit * (total // len(unit) + 1))[:total]
         if pattern == "single_flag_between_frames":
             ids = hdlc_gen.IdSource(rng)
             unit = b"".join(b"\x7e" + hdlc_gen.on_wire(hdlc_gen.good_frame(rng, ids, max_info=120, want_info=True)[0], cfg[0]) for _ in range(300))
